@@ -92,13 +92,14 @@ def cached_worker(job):
     verifier, same tier and seed); any edit under $STONE_REPO/stone or /verif
     invalidates every entry.  Several properties share the same carrier functions,
     so a run over all properties proves each function once."""
-    target, tier, seed, known = job
+    target, tier, seed, known = job[:4]
+    restrict = job[4] if len(job) > 4 else None
     if os.environ.get('VERIF_NO_CACHE'):
         return worker(job)
     cdir = os.path.join(HERE, '.cache')
     os.makedirs(cdir, exist_ok=True)
     runtime_only = target.startswith('stone.backends.python_rsrc.') or target.startswith('lemma:C04.')
-    key = hashlib.sha256(('%s|%s|%s' % (tree_hash(runtime_only), target, tier)).encode()).hexdigest()
+    key = hashlib.sha256(('%s|%s|%s|%s' % (tree_hash(runtime_only), target, tier, restrict)).encode()).hexdigest()
     path = os.path.join(cdir, key + '.json')
     if os.path.exists(path):
         try:
@@ -122,8 +123,70 @@ def cached_worker(job):
     return out
 
 
+def split_of(CT, target):
+    """(param name, number of alternatives) when the contract's first OneOf parameter has several kinds"""
+    if target.startswith('lemma:'):
+        return None
+    con = CT.REGISTRY[target]
+    for name, kind in con.params.items():
+        if isinstance(kind, CT.OneOf) and len(kind.kinds) >= 3:
+            return (name, list(range(len(kind.kinds))))
+    levels = con.opts.get('split')
+    if levels:
+        # heavy functions without a OneOf parameter: the first `levels` branch decisions of every path are
+        # bucketed (first feasible alternative / the others); each combination is a separate process
+        import itertools
+        return ('#choices', [tuple(c) for c in itertools.product((0, 1), repeat=levels)])
+    return None
+
+
+def merge_reports(target, parts):
+    """reports of the alternatives of one function -> one report"""
+    out = dict(parts[0][1])
+    out['obligations'] = []
+    out['paths'] = 0
+    out['seconds'] = 0.0
+    out['solver_seconds'] = 0.0
+    inl, ass = set(), set()
+    out['unsupported'] = None
+    out.pop('crash', None)
+    cached = True
+    seen = set()
+    for k, r in parts:
+        tag = ('alt%d' % k) if isinstance(k, int) else ('part' + ''.join(str(x) for x in k))
+        if r.get('crash'):
+            out['crash'] = '%s: %s' % (tag, r['crash'])
+        pathnames = set()
+        for o in r['obligations']:
+            o = dict(o)
+            # a path with fewer branch decisions than split levels is explored by several parts: keep one copy
+            ident = (o['name'].split(':', 2)[-1] if '#path' in o['name'] else o['name'], tuple(o.get('path') or ()))
+            if not isinstance(k, int):
+                if ident in seen:
+                    continue
+                seen.add(ident)
+            pathnames.add(o['name'].split('#')[1].split(':')[0] if '#' in o['name'] else '')
+            o['name'] = o['name'].replace('#path', '#%s.path' % tag, 1)
+            out['obligations'].append(o)
+        out['paths'] += (r.get('paths') or 0) if isinstance(k, int) else len(pathnames)
+        out['seconds'] = max(out['seconds'], r.get('seconds') or 0.0)
+        out['solver_seconds'] += r.get('solver_seconds') or 0.0
+        inl.update(r.get('inlined') or [])
+        ass.update(r.get('assumptions') or [])
+        if r.get('unsupported') and not out['unsupported']:
+            out['unsupported'] = '%s: %s' % (tag, r['unsupported'])
+        cached = cached and bool(r.get('cached'))
+    out['inlined'] = sorted(inl)
+    out['assumptions'] = sorted(ass)
+    out['cached'] = cached
+    out['split'] = len(parts)
+    out['target'] = target
+    return out
+
+
 def worker(job):
-    target, tier, seed, known = job
+    target, tier, seed, known = job[:4]
+    restrict = job[4] if len(job) > 4 else None
     t0 = time.time()
     try:
         CT = load_contracts()
@@ -137,7 +200,7 @@ def worker(job):
         else:
             con = CT.REGISTRY[target]
             con._known_cases = [k for k in known if k['target'] == target and k.get('status') == 'known' and k.get('case')]
-            rep = V.verify(E, con)
+            rep = V.verify(E, con, restrict=dict([restrict]) if restrict else None)
         out = rep.to_json()
         out['wall'] = time.time() - t0
         return out
@@ -172,7 +235,7 @@ def main():
     ap.add_argument('prop')
     ap.add_argument('--tier', default=os.environ.get('VERIF_TIER', 'quick'))
     ap.add_argument('--replay')
-    ap.add_argument('--jobs', type=int, default=min(16, os.cpu_count() or 4))
+    ap.add_argument('--jobs', type=int, default=min(8, os.cpu_count() or 4))
     args = ap.parse_args()
     seed = int(os.environ.get('VERIF_SEED', '0'))
     prop = args.prop
@@ -195,10 +258,26 @@ def main():
     order = sorted(targets + canaries, key=lambda t: 0 if any(h in t for h in heavy) else 1)
     bounded_only = [t for t in order if not t.startswith('lemma:') and CT.REGISTRY[t].opts.get('bounded')]
     order = [t for t in order if t not in bounded_only]
-    jobs = [(t, args.tier, seed, known) for t in order]
+    # a function whose contract ranges over several parameter kinds (OneOf) is proved kind by kind in
+    # separate processes; the parts are merged into one report
+    jobs = []
+    for t in order:
+        sp = split_of(CT, t)
+        if sp is None:
+            jobs.append((t, args.tier, seed, known))
+        else:
+            jobs.extend((t, args.tier, seed, known, (sp[0], k)) for k in sp[1])
     with multiprocessing.Pool(min(args.jobs, len(jobs))) as pool:
-        reports = pool.map(cached_worker, jobs, chunksize=1)
-    by_target = dict((r['target'], r) for r in reports)
+        results = pool.map(cached_worker, jobs, chunksize=1)
+    by_target = {}
+    parts = {}
+    for job, r in zip(jobs, results):
+        if len(job) > 4:
+            parts.setdefault(job[0], []).append((job[4][1], r))
+        else:
+            by_target[job[0]] = r
+    for t, ps in parts.items():
+        by_target[t] = merge_reports(t, sorted(ps, key=lambda x: (0, x[0]) if isinstance(x[0], int) else (1,) + tuple(x[0])))
     for t in bounded_only:
         # functions outside the VC generator's reach in this revision: bounded stand-in only
         by_target[t] = {'target': t, 'obligations': [], 'paths': 0, 'unsupported': None, 'bounded_only': True}
